@@ -15,7 +15,7 @@ Line-protocol driver for C11 (Model/Chunks.lean).
   sel2 usechk restart|- cats its   Model/Restarts.readETData around a reader that returns the restart number:
       cats = r:lo-hi|-:c1+c2+..|-|e , comma separated (e = empty checkpoint list); -> `it:restart` pairs, `err`
   flat oldIt table table ...   Model/Restarts.flattenTables; table = r:it+it+..:key=v+v+..;key=v+..
-      -> `ok it=..|key=..|key=..`, `err`
+      -> `ok it=..|key=..|key=..` (`None` = Python None), `err`
   ckpt rl its vars file file ...   Model/Checkpoint.readCheckpoints; vars = aurel names (comma separated);
       file = itName:fileNo|-:dset;dset;... ; dset = thorn,var,it,tl,rl|-,c|-,gx,gy,gz,ox,oy,oz,time,sz,sy,sx,v0
       -> `ok it=..|t=..|name=<arr>/<arr>|...` (arr = d0xd1xd2:v,v,..), `err`
@@ -120,6 +120,10 @@ def showCell : Cell Nat → String
   | .t x => toString x
   | .arr a => showArr3 a
 
+def showOptNat : Option Nat → String
+  | some x => toString x
+  | none => "None"
+
 def step (line : String) : String :=
   match (line.trimAscii.toString.splitOn " ") with
   | ["join", bx, b_y, bz, nz, ny, nx, d, perm] =>
@@ -158,7 +162,7 @@ def step (line : String) : String :=
     | some restart, some cats, some its =>
       match readETData (usechk == "1") cats restart its (fun r l => some ⟨l, [("r", l.map fun _ => r)]⟩) with
       | some (its', cols) =>
-        "ok " ++ " ".intercalate ((its'.zip ((cols.get? "r").getD [])).map fun p => s!"{p.1}:{p.2}")
+        ("ok " ++ " ".intercalate ((its'.zip ((cols.get? "r").getD [])).map fun p => s!"{p.1}:{showOptNat p.2}")).trimAsciiEnd.toString
       | none => "err"
     | _, _, _ => "bad-op"
   | "flat" :: oldIt :: tabs =>
@@ -167,7 +171,7 @@ def step (line : String) : String :=
       match flattenTables tabs oldIt with
       | some (its', cols) =>
         "ok it=" ++ ",".intercalate (its'.map toString)
-          ++ String.join (cols.map fun kc => "|" ++ kc.1 ++ "=" ++ ",".intercalate (kc.2.map toString))
+          ++ String.join (cols.map fun kc => "|" ++ kc.1 ++ "=" ++ ",".intercalate (kc.2.map showOptNat))
       | none => "err"
     | _, _ => "bad-op"
   | "ckpt" :: rl :: its :: vars :: files =>
